@@ -45,6 +45,10 @@ def generate(rng, idx, tier, variant):
     for _ in range(rng.choice([1, 2, 2, 3, 4])):
         faults = rng.random() < 0.6 and not int_model
         opts = S.gen_opts(rng, faults)
+        if opts['max_iter'] > 300:
+            # (every pass is recorded column by column here: thousands of snapshots only now and then)
+            opts['max_iter'] = 1000 if rng.random() < 0.15 else rng.choice([255, 256, 300])
+            opts['min_iter'] = min(opts['min_iter'], opts['max_iter'])
         if int_model:
             opts['tol'] = rng.choice([1, 2])
             opts['errors'] = 'raise'
